@@ -1092,64 +1092,11 @@ func (ci *cdInfo) guardOfM(b *ssa.BasicBlock, memo map[*ssa.BasicBlock]*Form, on
 		if iff == nil {
 			continue
 		}
-		// a condition materialised by short-circuit evaluation (`case a && b:`, `x := a || b; if x`): the φ in the
-		// branching block is expanded over its incoming edges, so the guard is the same formula the equivalent
-		// nested-if form would give
-		if phi, isPhi := iff.Cond.(*ssa.Phi); isPhi && phi.Block() == d.b && (phi.Comment == "&&" || phi.Comment == "||") {
-			var ealts []*Form
-			for i, pred := range d.b.Preds {
-				if d.b.Dominates(pred) {
-					continue
-				}
-				var val *Form
-				if cb, isC := constBool(phi.Edges[i]); isC {
-					val = fFalse
-					if cb {
-						val = fTrue
-					}
-				} else {
-					a, neg := condLit(phi.Edges[i])
-					val = fLit(a)
-					if neg {
-						val = fNot(val)
-					}
-				}
-				if d.succ == 1 {
-					val = fNot(val)
-				}
-				edge := fTrue
-				if pif := blockIf(pred); pif != nil {
-					if cb, isC := constBool(pif.Cond); isC {
-						if cb != (pred.Succs[0] == d.b) {
-							edge = fFalse
-						}
-					} else {
-						a, neg := condLit(pif.Cond)
-						edge = fLit(a)
-						if neg != (pred.Succs[1] == d.b && pred.Succs[0] != d.b) {
-							edge = fNot(edge)
-						}
-					}
-				}
-				ealts = append(ealts, fAnd(ci.guardOfM(pred, memo, onstack), edge, val))
-			}
-			alts = append(alts, fOr(ealts...))
-			continue
-		}
-		var lit *Form
-		if cb, isConst := constBool(iff.Cond); isConst {
-			lit = fFalse
-			if cb == (d.succ == 0) {
-				lit = fTrue
-			}
-		} else {
-			a, neg := condLit(iff.Cond)
-			lit = fLit(a)
-			if neg != (d.succ == 1) {
-				lit = fNot(lit)
-			}
-		}
-		alts = append(alts, fAnd(ci.guardOfM(d.b, memo, onstack), lit))
+		// The condition is turned into a formula by condForm: constants, negations, and boolean φ-nodes (a condition
+		// materialised by short-circuit evaluation, `case a && b:`, or computed once into a local, `x := a || b`,
+		// and tested later, possibly several times) are expanded over their incoming edges, so the guard is the
+		// same formula the equivalent nested-if form would give.
+		alts = append(alts, fAnd(ci.guardOfM(d.b, memo, onstack), ci.condForm(iff.Cond, d.succ == 0, memo, onstack, 0)))
 	}
 	var f *Form
 	if !any {
@@ -1159,6 +1106,42 @@ func (ci *cdInfo) guardOfM(b *ssa.BasicBlock, memo map[*ssa.BasicBlock]*Form, on
 	}
 	memo[b] = f
 	return f
+}
+
+// condForm: the formula under which the boolean value v equals want (given that v's block was reached).
+func (ci *cdInfo) condForm(v ssa.Value, want bool, memo map[*ssa.BasicBlock]*Form, onstack map[*ssa.BasicBlock]bool, depth int) *Form {
+	if cb, isC := constBool(v); isC {
+		if cb == want {
+			return fTrue
+		}
+		return fFalse
+	}
+	if u, ok := v.(*ssa.UnOp); ok && u.Op == token.NOT {
+		return ci.condForm(u.X, !want, memo, onstack, depth)
+	}
+	if phi, ok := v.(*ssa.Phi); ok && depth < 6 && isBoolType(phi.Type()) && !isLoopHeader(phi.Block()) {
+		pb := phi.Block()
+		var ealts []*Form
+		for i, pred := range pb.Preds {
+			edge := fTrue
+			if pif := blockIf(pred); pif != nil && pred.Succs[0] != pred.Succs[1] {
+				edge = ci.condForm(pif.Cond, pred.Succs[0] == pb, memo, onstack, depth+1)
+			}
+			ealts = append(ealts, fAnd(ci.guardOfM(pred, memo, onstack), edge, ci.condForm(phi.Edges[i], want, memo, onstack, depth+1)))
+		}
+		return fOr(ealts...)
+	}
+	a, neg := condLit(v)
+	lit := fLit(a)
+	if neg == want {
+		lit = fNot(lit)
+	}
+	return lit
+}
+
+func isBoolType(t types.Type) bool {
+	b, ok := t.Underlying().(*types.Basic)
+	return ok && b.Info()&types.IsBoolean != 0
 }
 
 // ---------- conditionality helpers ----------
